@@ -5,6 +5,7 @@ package main
 
 import (
 	"fmt"
+	"go/constant"
 	"go/token"
 	"go/types"
 	"sort"
@@ -161,6 +162,32 @@ func (c *pathCtx) path(v ssa.Value) string {
 	case *ssa.Lookup:
 		return c.path(x.X) + "[" + c.path(x.Index) + "]"
 	case *ssa.Slice:
+		if a, ok := x.X.(*ssa.Alloc); ok && a.Comment == "varargs" && x.Low == nil && x.High == nil {
+			// variadic argument list: render the elements stored into the backing array
+			elems := map[int64]string{}
+			max := int64(-1)
+			for _, r := range *a.Referrers() {
+				if ia, ok := r.(*ssa.IndexAddr); ok {
+					if k, ok := ia.Index.(*ssa.Const); ok && k.Value != nil {
+						if i, ok := constant.Int64Val(k.Value); ok {
+							for _, r2 := range *ia.Referrers() {
+								if st, ok := r2.(*ssa.Store); ok && st.Addr == ia {
+									elems[i] = c.path(st.Val)
+									if i > max {
+										max = i
+									}
+								}
+							}
+						}
+					}
+				}
+			}
+			var parts []string
+			for i := int64(0); i <= max; i++ {
+				parts = append(parts, elems[i])
+			}
+			return "varargs[" + strings.Join(parts, ", ") + "]"
+		}
 		s := deref(c.path(x.X)) + "["
 		if x.Low != nil {
 			s += c.path(x.Low)
